@@ -103,7 +103,7 @@ func main() {
 	}
 
 	// select contracts
-	var sels []string
+	var sels, unverified []string
 	for s, c := range w.cons {
 		if c.External || c.Trusted && c.External {
 			continue
@@ -115,6 +115,10 @@ func main() {
 			continue
 		}
 		if *prop != "" && !hasProp(c.Props, *prop) {
+			continue
+		}
+		if c.Unverified {
+			unverified = append(unverified, s)
 			continue
 		}
 		sels = append(sels, s)
@@ -173,8 +177,12 @@ func main() {
 		}
 		return
 	}
+	sort.Strings(unverified)
+	unverifiedContracts = unverified
 	report(*verif, *prop, *tier, *seed, results, obs, loadSecs, genSecs, to, t0)
 }
+
+var unverifiedContracts []string
 
 func nonEmpty(a, b string) string {
 	if a != "" {
@@ -349,6 +357,9 @@ func report(verif, prop, tier string, seed int, results []*FuncResult, obs []*Ob
 			}
 			samples = append(samples, map[string]any{"obligation": ob.Name, "kind": ob.Kind, "at": ob.Pos, "meaning": ob.Descr, "goal": g, "assumptions_on_path": len(ob.PC), "status": ob.Status, "backend": ob.Backend})
 		}
+	}
+	for _, u := range unverifiedContracts {
+		trusted["UNVERIFIED in-repo contract (assumed at call sites, body not yet under proof): "+u] = true
 	}
 	var tb []string
 	for t := range trusted {
